@@ -25,7 +25,8 @@ RULE = (
     "(quick) / 9 (thorough) x dtypes int32/int64/uint16/uint32; each case exercises "
     "_spikes_per_cluster (with and without a gapped spike-id vector), _spikes_in_clusters for a "
     "fixed pool of requested lists (empty, unknown ids, unsorted, repeated), _unique, _index_of "
-    "against unsorted lookups, _flatten_per_cluster, grouped_mean (1-D and 2-D values). "
+    "against unsorted lookups, _flatten_per_cluster, grouped_mean (1-D and 2-D float values, "
+    "int16 / uint8 / bool / int64 values). "
     "(rand) Hypothesis: vectors to length 3000 over ids up to 5000 with wide gaps (uint16 "
     "vectors also with ids 32768/65534/65535; one case in six has 30-80 clusters spread over "
     "0..60000 and 20-70 requested ids), signed "
@@ -170,6 +171,16 @@ def _check_common(v, dt, reqs, lookups, neg=()):
         exp3 = np.array([np.mean([vals3[i] for i in range(n) if v[i] == c]) for c in present])
         same_array('grouped_mean (large dynamic range)', gm3, exp3, key='grouped_mean',
                    dtype=False, tol=(1e-9, 0))
+        # the quantity may be stored in a narrow type (int16 samples, uint8 labels, booleans);
+        # the mean is the mathematical mean whatever the type of the values
+        for vdt, mk in (('int16', lambda i: 30000 - (i * 7) % 11), ('uint8', lambda i: 250 - i % 3),
+                        ('bool', lambda i: bool((i * 5) % 3)), ('int64', lambda i: i * i - 40)):
+            vi = [mk(i) for i in range(n)]
+            gmi = must_return('grouped_mean', grouped_mean, np.array(vi, dtype=vdt), arr)
+            expi = np.array([sum(int(vi[i]) for i in range(n) if v[i] == c) / v.count(c)
+                             for c in present])
+            same_array('grouped_mean (%s values)' % vdt, gmi, expi, key='grouped_mean',
+                       dtype=False, tol=(1e-12, 1e-12))
         vals2 = np.c_[vals, vals[::-1] * 3]
         gm2 = must_return('grouped_mean', grouped_mean, vals2, arr)
         exp2 = np.array([np.mean([vals2[i] for i in range(n) if v[i] == c], axis=0) for c in present])
